@@ -1,6 +1,7 @@
 SPECIFICATION Spec
 CONSTANTS Threads = {1,2,3}
   N = 3
+  N2 = 3
   Rounds = 2
   Variant = "None"
 INVARIANTS NoEarlyRelease CounterBelowN SleepersMatch
